@@ -23,8 +23,10 @@ HARNESS_DEFAULTS = {"AndersonCD": dict(max_epochs=1000), "MultiTaskBCD": dict(ma
 def plan(tier, seed):
     tasks = []
     for (s, d, p, st) in R.domains(tier):
-        tasks.append(dict(op="domain", solver=s, datafit=d, pen=p, storage=st, weight=3,
-                          domain=f"{s}|{d}|{p}|{st}"))
+        nparts = 4 if (s == "MultiTaskBCD" or d == "Cox") else (2 if s in ("GroupBCD", "GroupProxNewton", "ProxNewton") else 1)
+        for part in range(nparts):
+            tasks.append(dict(op="domain", solver=s, datafit=d, pen=p, storage=st, weight=3 + nparts, part=part, nparts=nparts,
+                              domain=f"{s}|{d}|{p}|{st}"))
     for p0 in (1, 2):
         for fi in (False, True):
             tasks.append(dict(op="ws", p0=p0, fit_intercept=fi, weight=4, domain="AndersonCD|Quadratic|WeightedL1|ws"))
@@ -34,8 +36,8 @@ def plan(tier, seed):
 def comps_for_domain(task, tier, d_max):
     s, dn, pk, st = task["solver"], task["datafit"], task["pen"], task["storage"]
     kind = R.KIND[dn]
-    for xid, X in R.solve_designs(tier):
-        if s == "GramCD" and False:
+    for ix, (xid, X) in enumerate(R.solve_designs(tier)):
+        if ix % task.get("nparts", 1) != task.get("part", 0):
             continue
         for tname, y in R.targets(kind, X, tier):
             for dspec in R.datafit_specs(dn, X, tier):
@@ -80,17 +82,16 @@ def judge(comp, res):
     prob = C.problem_of(comp)
     scale = 1.0 + float(np.abs(prob["X"]).sum()) * (1.0 + float(np.abs(prob["y"]).max()))
     bound = tol * (1 + 1e-6) + 1e-10 * scale
+    from mc.ref import pen as RP
+    if C.strategy_of(comp["solver"]) == "fixpoint" and comp["penalty"]["name"] not in RP.CONVEX:
+        bound += 1e-7          # accuracy of the brute-force reference prox (golden section on objective values)
     if viol <= bound:
         return None
     s = comp["solver"]["name"]
     kw = comp["solver"].get("kw", {})
     dom = "intercept" if parts["intercept"] >= parts["penalty"] else "penalty"
     where = dict(solver=s, datafit=(comp["datafit"] or {}).get("name"), penalty=comp["penalty"]["name"],
-                 strategy=C.strategy_of(comp["solver"]), zero_outer_budget=(kw.get(R.OUTER[s]) == 0),
-                 dominated_by=dom, fit_intercept=C.fit_intercept_of(comp["solver"]),
-                 within_4x=bool(viol <= 4 * bound), warm=comp.get("w_init") is not None,
-                 unpenalized=bool("weights" in comp["penalty"] and 0.0 in comp["penalty"]["weights"]),
-                 use_acc=bool(kw.get("use_acc", s != "GramCD")))
+                 zero_outer_budget=(kw.get(R.OUTER[s]) == 0), dominated_by=dom, within_4x=bool(viol <= 4 * bound))
     return (f"solver:{s}.stop_crit", "certificate_invalid", dict(stop_crit=sc, recomputed=viol, parts=parts), f"<= {bound}", where)
 
 
@@ -121,7 +122,8 @@ def run(task, ctx):
             ctx.violation(site, kind, dict(op="solve", comp=comp), obs, exp, where=where, rank=n + 1000 * comp["dev"])
         if n <= 2:
             ctx.sample({k: comp[k] for k in ("solver", "datafit", "penalty", "xid", "storage")})
-    ctx.count("domains")
+    if task.get("part", 0) == 0:
+        ctx.count("domains")
 
 
 # -------- the working-set sub-driver: full product of zero-weight patterns x warm starts x epoch budgets (p = 5) --------
@@ -186,7 +188,7 @@ def run_ws(task, ctx):
         err = check_buffers(comp, res)
         if err is not None:
             ctx.violation("solver:AndersonCD.Xw_buffer", "fit_buffer_inconsistent", dict(op="solve", comp=comp), err, "== X w + b",
-                          where=dict(solver="AndersonCD", unpenalized=True, warm=True), rank=n)
+                          where=dict(solver="AndersonCD"), rank=n)
     ctx.sample(dict(op="ws", p0=task["p0"], fit_intercept=task["fit_intercept"], cells=n))
 
 
@@ -211,7 +213,7 @@ def replay(params):
 def describe(tier, agg):
     rule = ("engine P over compile domains (solver x datafit class x penalty class x storage; %d domains): designs {tall6x3, wide3x5, "
             "sq4x4, zero-column, duplicated column, rescaled, T(3,2) representatives} x targets x datafit hyper x alpha fractions "
-            "{.5,.1,.01 (+1.5 thorough)} of the reference critical value x all knob assignments with <= %d deviations from defaults "
+            "{.3,.03} (quick) / {1.5,.5,.1,.01} (thorough) of the reference critical value x all knob assignments with <= %d deviations from defaults "
             "(tol, p0, strategy, fit_intercept, use_acc/greedy, warm start from W, budget rectangle (max_iter x max_epochs incl. "
             "0 and the extrapolation periods 6,7,8,13,14)); plus the full product 2^5 zero-weight patterns x 3^5 warm starts "
             "(every third in quick) x p0 in {1,2} x epochs {6,7,14} x intercept on the 6x5 working-set problem.  Each execution is "
